@@ -264,7 +264,7 @@ let run_core args =
     | Some l -> List.map (function Sexp.List [t; b] -> (cty_of t, cexp_of b) | _ -> failwith "bad fn") l
     | None -> [] in
   let e = match find "e" args with Some [e] -> cexp_of e | _ -> failwith "no expression" in
-  match infer fns core_fuel [] e with
+  match infer_prog fns core_fuel e with
   | None -> print_endline "(ty none)"
   | Some t ->
     let v = match eval fns core_fuel [] e with Some v -> dump_cval v | None -> "stuck" in
